@@ -251,6 +251,67 @@ func init() {
 		p.addObs("composition")
 		p.addObs("ok")
 	}, replay: c09Replay})
+	// context independence: esc(pre + x + post) == pre + esc(x) + post for plain-ASCII pre/post of
+	// lengths around every plausible word size; this is what rules out multi-byte-at-a-time fast paths
+	// whose look-ahead exceeds the exhaustive window above
+	parts = append(parts, partDef{prop: "C09", name: "c09/ascii-context", tiers: "qt", run: func(r *runCtx, p *Part) {
+		lens := []int{0, 1, 3, 4, 7, 8, 9, 15, 16, 17, 31, 33}
+		maxX := 2
+		if r.tier == "thorough" {
+			maxX = 3
+			lens = []int{0, 1, 7, 8, 15, 16, 33}
+		}
+		p.Bounds = fmt.Sprintf("every byte string x of length <= %d embedded in plain ASCII: %d prefix lengths x %d suffix lengths", maxX, len(lens), len(lens))
+		filler := "abcdefghijklmnopqrstuvwxyzABCDEFGHIJ"
+		buf := &bytes.Buffer{}
+		xb := make([]byte, maxX)
+		var rec func(n, d int)
+		one := func(x string) {
+			ex, v := c09Check(buf, x)
+			if v != nil {
+				p.fail(*v, hexOf(x))
+				return
+			}
+			for _, lp := range lens {
+				for _, ls := range lens {
+					p.Executions++
+					in := filler[:lp] + x + filler[len(filler)-ls:]
+					buf.Reset()
+					log.WriteLogString(buf, in)
+					if want := filler[:lp] + ex + filler[len(filler)-ls:]; buf.String() != want {
+						p.fail(Violation{Clause: "context-dependent-escaping", Key: fmt.Sprintf("%q with %d+%d ASCII bytes around", x, lp, ls),
+							Detail: fmt.Sprintf("WriteLogString(%q) = %q, want %q", in, buf.String(), want)}, hexOf(in))
+					}
+				}
+			}
+		}
+		rec = func(n, d int) {
+			if d == n {
+				one(string(xb[:n]))
+				return
+			}
+			for c := 0; c < 256; c++ {
+				xb[d] = byte(c)
+				rec(n, d+1)
+			}
+		}
+		for n := 1; n <= maxX; n++ {
+			for c := 0; c < 256; c++ {
+				if c%r.nshards != r.shard {
+					continue
+				}
+				if r.expired() {
+					p.Capped = true
+					return
+				}
+				xb[0] = byte(c)
+				rec(n, 1)
+			}
+		}
+		p.States, p.Transitions = p.Executions, p.Executions
+		p.addObs("context")
+		p.addObs("ok")
+	}, replay: c09Replay})
 	// the reference decoder itself against encoding/json, and the encoders' key/string paths
 	parts = append(parts, partDef{prop: "C09", name: "c09/encoders-and-reference", tiers: "qt", run: func(r *runCtx, p *Part) {
 		p.Bounds = "all strings of length <= 2 over all bytes: reference decoder vs encoding/json; AppendKey/AppendString of both encoders vs WriteLogString"
